@@ -791,7 +791,10 @@ func (g *c07gen) genOp(m resmap.ResMap) c07Opspec {
 		}
 		for i := range cur {
 			// an empty resource has no id a patch could target
-			if !cur[i].IsNilOrEmpty() && g.rng.Chance(35) {
+			// nor a nameless one: ApplySmPatch restores the old name with SetName(""), which creates `name: ""` — the
+			// model does not distinguish that from a missing name (same restriction as for the odd sequences; a
+			// formerly empty resource that gained annotations is such a nameless resource)
+			if !cur[i].IsNilOrEmpty() && cur[i].GetName() != "" && g.rng.Chance(35) {
 				o.Sel = append(o.Sel, i)
 			}
 		}
